@@ -110,6 +110,8 @@ class AttrExec(SeqExec):
             return v.t[0]
         if v.k == "helper":
             return BoolVal(True)
+        if v.k == "any" and isinstance(v.x, dict) and "truth" in v.x:
+            return v.x["truth"]
         return SeqExec.truth(self, v, p, e)
 
     def is_compare(self, l, r, p, e):
